@@ -92,7 +92,7 @@ pub fn make_prior(target: &Path, p: Prior, r: &mut Rng) {
             let mut rc = Recipe::plain();
             rc.info = true;
             rc.kerning = 1;
-            rc.layers[0].glyphs.push(GlyphR { name: "old".into(), objlibs: false, width: 5 });
+            rc.layers[0].glyphs.push(GlyphR { name: "old".into(), objlibs: false, uid: false, width: 5 });
             build_font(&rc).0.save(target).unwrap();
         }
         Prior::LargerUfo => {
@@ -106,7 +106,7 @@ pub fn make_prior(target: &Path, p: Prior, r: &mut Rng) {
                 name: "prior layer".into(),
                 color: true,
                 lib: true,
-                glyphs: vec![GlyphR { name: "p".into(), objlibs: false, width: 1 }],
+                glyphs: vec![GlyphR { name: "p".into(), objlibs: false, uid: false, width: 1 }],
             });
             rc.data = vec![("old/keep.bin".into(), b"precious".to_vec()), ("zz.txt".into(), b"zz".to_vec())];
             rc.images = vec![("old.png".into(), PNG.to_vec())];
@@ -228,7 +228,17 @@ pub fn prepare_loaded(sb: &Path, r: &mut Rng, allow_bad_files: bool) -> Prepared
     if r.chance(1, 2) {
         foreign_file_names(&src, r, &mut notes);
     }
-    let font = Font::load(&src).unwrap();
+    let font = match Font::load(&src) {
+        Ok(f) => f,
+        Err(e) => {
+            // a tree Font::save has just written must load; keep going with a second attempt so
+            // that the run reports this instead of dying
+            notes.push(format!("SOURCE-RELOAD-FAILED: a source just written by Font::save does not load: {}", format!("{:?}", e).chars().take(200).collect::<String>()));
+            let _ = std::fs::remove_dir_all(&src);
+            build_font(&rc).0.save(&src).unwrap();
+            Font::load(&src).unwrap()
+        }
+    };
     let mut shadow = Shadow::opened(&font, &comps("src.ufo"));
     // every file of the source's data/ and images/ (as the directory listing shows them, not as
     // the loaded store reports them) has to survive a save in place
@@ -616,8 +626,10 @@ pub fn reference_save(font: &Font, out: &Path, idx: u64, target_rel: &[String], 
     let rt = rsb.join(target_rel.join("/"));
     std::fs::create_dir_all(rt.parent().unwrap()).unwrap();
     let keep = snapshot(sb);
+    // in a thread of its own: no history of earlier saves (thread-local state) can leak into it
     let clone = font.clone();
-    let ok = matches!(catch(|| clone.save(&rt)), Ok(Ok(())));
+    let rt2 = rt.clone();
+    let ok = std::thread::spawn(move || matches!(catch(|| clone.save(&rt2)), Ok(Ok(())))).join().unwrap_or(false);
     let snap = snapshot(&rsb);
     let abs_tree = snapshot(sb);
     if abs_tree != keep {
@@ -751,7 +763,7 @@ pub fn case(seed: u64, idx: u64, out: &Path, verbose: bool) -> CaseOut {
                 if r.chance(1, 6) && !rc.layers.is_empty() {
                     // a late failure the property does not cover: glyph lib with public.objectLibs
                     let li = r.below(rc.layers.len() as u64) as usize;
-                    rc.layers[li].glyphs.push(GlyphR { name: "late".into(), objlibs: true, width: 1 });
+                    rc.layers[li].glyphs.push(GlyphR { name: "late".into(), objlibs: true, uid: false, width: 1 });
                 }
                 let (font, shadow) = build_font(&rc);
                 p = Prepared { font, shadow, groups_ok: true, info_valid: true, loaded_from: None, preserve: BTreeSet::new(), notes: vec![] };
@@ -771,7 +783,7 @@ pub fn case(seed: u64, idx: u64, out: &Path, verbose: bool) -> CaseOut {
     let run = run_save(&p, out, idx, &sb, &target_rel);
     // ------------------------------------------------------------ property oracle
     let expect = expected_refusal(&p, &run.before);
-    let mut why: Vec<String> = vec![];
+    let mut why: Vec<String> = p.notes.iter().filter(|n| n.starts_with("SOURCE-RELOAD-FAILED")).cloned().collect();
     if run.obs.1 == "PANIC" {
         why.push(format!("Font::save panicked; the file system changed: {}", snap_diff(&run.before, &run.after).join(", ")));
     }
